@@ -259,8 +259,9 @@ class _Alias:
 
 
 class _Filter:
-    def __init__(self, rep, keep, rename, skip_known=False):
+    def __init__(self, rep, keep, rename, skip_known=False, key_rx=None):
         self.rep, self.keep, self.rename = rep, keep, rename
+        self.key_rx = key_rx or {}       # rule -> regex: only violations whose key matches are imported (a sub-clause of the rule)
         self.known = set()
         if skip_known:
             # a recorded finding is printed under its own property only; anything ELSE the imported rule reports is shown here too
@@ -282,6 +283,8 @@ class _Filter:
             def g(rule, *a, **kw):
                 if rule in self.keep:
                     if name == "violation" and a and (a[0] in self.known or ("%s|%s" % (rule, a[0])) in self.known):
+                        return True
+                    if name in ("violation", "unresolved") and a and self.key_rx.get(rule) and not re.search(self.key_rx[rule], a[0]):
                         return True
                     return f(self.rename + rule, *a, **kw)
                 if name == "expect":
